@@ -199,8 +199,38 @@ class Check:
                 out.append(c["opt"])
         return out
 
+    # ------------------------------------------------------------------ corpus of past defects
+    def replay_corpus(self):
+        """the concrete failing inputs of the defects repaired so far for this property (corpus/baseline_defects.py) are replayed on the
+        real code: a defect that returns is a failing input with its own signature"""
+        path = os.path.join(C.VERIF, "corpus", "baseline_defects.py")
+        try:
+            src = open(path).read()
+        except OSError:
+            return
+        names = sorted(set(re.findall(r"^def (c%s_\w+)\(" % self.pid[1:], src, flags=re.M)))
+        if not names:
+            return
+        env = dict(os.environ, GFO_SRC=C.SRC)
+        try:
+            p = subprocess.run(["/venv/bin/python", path] + names, capture_output=True, text=True, timeout=600, env=env)
+        except subprocess.TimeoutExpired:
+            raise C.Infra("corpus replay timed out")
+        fails = []
+        for l in p.stdout.split("\n"):
+            if l.startswith("VIOLATED "):
+                name, _, detail = l[len("VIOLATED "):].partition(" : ")
+                fails.append(dict(signature=f"{self.pid}|corpus|{name.strip()}", detail="a repaired defect is back: " + detail, case=dict(probe=name.strip())))
+        self.monitor("corpus: failing inputs of the defects repaired so far for this property, replayed on the real code", len(names), fails)
+
     # ------------------------------------------------------------------ verdict
     def finish(self):
+        try:
+            self.replay_corpus()
+        except C.Infra:
+            raise
+        except Exception as e:  # noqa - the corpus is an extra: never the reason a check cannot finish
+            self.notes.append(f"corpus replay skipped: {type(e).__name__}: {e}")
         known = load_known()
         os.makedirs(C.REPLAYS, exist_ok=True)
         lines = []
